@@ -380,10 +380,10 @@ Section Proofs.
 
   (* grow(n) *)
   Lemma grow_ok : forall s vs n, rep s vs -> length vs <= n -> S <= n ->
-    exists s', grow P n s = Ok s' /\ rep s' vs /\ is_heap s' = true /\ capacity s' = n.
+    exists s', grow_ref P n s = Ok s' /\ rep s' vs /\ is_heap s' = true /\ capacity s' = n.
   Proof.
     intros s vs n (Hll & Hla & rest & Hd & Hn & Hr & Hc) Hle HS.
-    unfold grow. rewrite Hd, <- Hn.
+    unfold grow_ref. rewrite Hd, <- Hn.
     rewrite xfer_bridge. cbn [bind].
     assert (Ha : alloc P n = alloc P (length vs) ++ alloc P (n - length vs)).
     { rewrite <- alloc_split. f_equal. lia. }
@@ -454,9 +454,9 @@ Section Proofs.
       rewrite map_length. lia.
   Qed.
 
-  Lemma ctor_n_ok : forall n, exists s, ctor_n P n = Ok s /\ rep s (repeat dflt n).
+  Lemma ctor_n_ok : forall n, exists s, ctor_n_ref P n = Ok s /\ rep s (repeat dflt n).
   Proof.
-    intro n. unfold ctor_n. destruct (n <=? S) eqn:E.
+    intro n. unfold ctor_n_ref. destruct (n <=? S) eqn:E.
     - apply Nat.leb_le in E. destruct triv eqn:Ht.
       + rewrite (fresh_local_split n E).
         pose proof (assign_app [] (repeat dflt n) (repeat fl n) (repeat fl (S - n)) 0 eq_refl) as H.
@@ -524,9 +524,9 @@ Section Proofs.
   Qed.
 
   Lemma move_ctor_ok : forall rhs vs, rep rhs vs ->
-    exists s r ws, move_ctor P rhs = Ok (s, r) /\ rep s vs /\ rep r ws.
+    exists s r ws, move_ctor_ref P rhs = Ok (s, r) /\ rep s vs /\ rep r ws.
   Proof.
-    intros rhs vs H. unfold move_ctor. destruct (size rhs <=? S) eqn:E.
+    intros rhs vs H. unfold move_ctor_ref. destruct (size rhs <=? S) eqn:E.
     - apply Nat.leb_le in E. destruct (rep_moveout _ _ H) as (d' & Hm & Hr').
       rewrite Hm. cbn [bind].
       pose proof (rep_size _ _ H) as Hs. rewrite Hs in E.
@@ -690,9 +690,9 @@ Section Proofs.
   Qed.
 
   Lemma reserve_ok : forall s vs n, rep s vs ->
-    exists s', reserve P n s = Ok s' /\ rep s' vs /\ n <= capacity s' /\ capacity s <= capacity s'.
+    exists s', reserve_ref P n s = Ok s' /\ rep s' vs /\ n <= capacity s' /\ capacity s <= capacity s'.
   Proof.
-    intros s vs n H. unfold reserve. destruct (capacity s <? n) eqn:E.
+    intros s vs n H. unfold reserve_ref. destruct (capacity s <? n) eqn:E.
     - apply Nat.ltb_lt in E. destruct (rep_cap _ _ H) as (H1 & H2).
       destruct (grow_ok s vs n H) as (s' & Hg & Hr & _ & Hcap); [lia|lia|].
       exists s'. split; [assumption|]. split; [assumption|]. split; lia.
@@ -706,12 +706,12 @@ Section Proofs.
   Qed.
 
   Lemma push_back_ok : forall s vs x, rep s vs ->
-    exists s', push_back P x s = Ok s' /\ rep s' (vs ++ [x]).
+    exists s', push_back_ref P x s = Ok s' /\ rep s' (vs ++ [x]).
   Proof.
-    intros s vs x H. unfold push_back.
+    intros s vs x H. unfold push_back_ref.
     destruct (rep_cap _ _ H) as (Hc1 & Hc2). pose proof (rep_size _ _ H) as Hs.
     destruct (size s =? capacity s) eqn:E.
-    - apply Nat.eqb_eq in E. unfold grow1.
+    - apply Nat.eqb_eq in E. unfold grow1_ref.
       pose proof (grow1_size (size s)) as Hg.
       destruct (grow_ok s vs (if 1 <? size s then 3 * size s / 2 else size s + 1) H)
         as (s1 & Hg1 & Hr1 & Hh1 & Hcap1); [lia|lia|].
@@ -744,9 +744,9 @@ Section Proofs.
   Qed.
 
   Lemma push_back_self_ok : forall s vs i, rep s vs -> i < length vs ->
-    exists s', push_back_self P i s = Ok s' /\ rep s' (vs ++ [nth i vs dflt]).
+    exists s', push_back_self_ref P i s = Ok s' /\ rep s' (vs ++ [nth i vs dflt]).
   Proof.
-    intros s vs i H Hi. unfold push_back_self. rewrite (read_one s vs i H Hi). cbn [bind].
+    intros s vs i H Hi. unfold push_back_self_ref. rewrite (read_one s vs i H Hi). cbn [bind].
     apply push_back_ok. exact H.
   Qed.
 
@@ -770,9 +770,9 @@ Section Proofs.
   Qed.
 
   Lemma resize_ok : forall s vs n, rep s vs ->
-    exists s', resize P n s = Ok s' /\ rep s' (resized n vs).
+    exists s', resize_ref P n s = Ok s' /\ rep s' (resized n vs).
   Proof.
-    intros s vs n H. unfold resize.
+    intros s vs n H. unfold resize_ref.
     destruct (rep_cap _ _ H) as (Hc1 & Hc2). pose proof (rep_size _ _ H) as Hs.
     destruct (n <=? capacity s) eqn:E.
     - apply Nat.leb_le in E. destruct triv eqn:Ht; cbn [negb].
@@ -804,7 +804,7 @@ Section Proofs.
              rewrite Hh. reflexivity.
     - apply Nat.leb_gt in E.
       destruct (grow_ok s vs n H) as (s1 & Hg & Hr1 & Hh1 & Hcap1); [lia|lia|].
-      rewrite Hg. cbn [bind].
+      rewrite Hg. cbn [bind]. rewrite Hcap1.
       destruct (extend_ok (c_construct P) s1 vs n) as (d & Hd & Hr); [|assumption|lia|lia|].
       { apply construct_rest_ok. exact Hh1. }
       rewrite Hd. cbn [bind]. eexists. split; [reflexivity|exact Hr].
@@ -875,9 +875,9 @@ Section Proofs.
   Qed.
 
   Lemma copy_assign_ok : forall this rhs us ws, rep this us -> rep rhs ws ->
-    exists s, copy_assign P this rhs = Ok s /\ rep s ws.
+    exists s, copy_assign_ref P this rhs = Ok s /\ rep s ws.
   Proof.
-    intros this rhs us ws Ht Hrhs. unfold copy_assign.
+    intros this rhs us ws Ht Hrhs. unfold copy_assign_ref.
     pose proof (rep_size _ _ Hrhs) as Hsr. pose proof (rep_size _ _ Ht) as Hst.
     destruct (rep_cap _ _ Ht) as (Hc1 & Hc2).
     destruct (rep_xfer _ _ Hrhs) as (rrest & _ & Hx).
@@ -929,9 +929,9 @@ Section Proofs.
   Qed.
 
   Lemma move_assign_ok : forall this rhs us ws, rep this us -> rep rhs ws ->
-    exists s r xs, move_assign P this rhs = Ok (s, r) /\ rep s ws /\ rep r xs.
+    exists s r xs, move_assign_ref P this rhs = Ok (s, r) /\ rep s ws /\ rep r xs.
   Proof.
-    intros this rhs us ws Ht Hrhs. unfold move_assign.
+    intros this rhs us ws Ht Hrhs. unfold move_assign_ref.
     pose proof (rep_size _ _ Hrhs) as Hsr.
     assert (H1 : exists this1, (if is_heap this then free_heap_memory P this else Ok this) = Ok this1
                  /\ loc this1 = loc this).
@@ -961,14 +961,78 @@ Section Proofs.
   Qed.
 
   Lemma append_ok : forall s vs xs, rep s vs ->
-    exists s', append P xs s = Ok (s', length vs) /\ rep s' (vs ++ xs).
+    exists s', append_ref P xs s = Ok (s', length vs) /\ rep s' (vs ++ xs).
   Proof.
-    intros s vs xs H. unfold append. pose proof (rep_size _ _ H) as Hs.
+    intros s vs xs H. unfold append_ref. pose proof (rep_size _ _ H) as Hs.
     destruct (reserve_ok s vs (size s + length xs) H) as (s1 & Hres & Hr1 & Hcap & _).
     rewrite Hres. cbn [bind]. pose proof (rep_size _ _ Hr1) as Hs1.
     destruct (write_end_ok (put P s1) s1 vs xs (put_ok s1) Hr1) as (d & Hw & Hr2); [lia|].
     rewrite Hw. cbn [bind]. rewrite Hs. eexists. split; [reflexivity|exact Hr2].
   Qed.
+
+  (* ------------------------------------------------- the programs extracted
+     from the source mean the *_ref methods.  progs_gen is regenerated on
+     every run: when a member definition changes these lemmas (and with them
+     step_refines) stop building, while the executable model follows the
+     source. *)
+  Lemma bind_ret : forall A (x : res A), bind x (fun a => Ok a) = x.
+  Proof. intros A [a|e]; reflexivity. Qed.
+
+  Ltac simp := cbn [exec exec_act eval_cond eval_nexp use_arg dangle sel with_this with_rhs with_n with_arg
+    with_size env0 e_this e_rhs e_nn e_nold e_oldsize e_saved e_arg e_tmp e_newd e_vals
+    cs_grow cs_grow_n cs_reserve calls1 calls2 no_calls
+    p_copy_assign p_move_assign p_move_ctor p_push_back p_emplace_back p_resize p_grow_n p_grow p_reserve
+    p_append p_ctor_n p_ctor_fill progs_gen
+    heap loc size data capacity is_heap set_data put bind negb andb fst snd].
+  Ltac crunch := repeat first
+    [ progress simp
+    | reflexivity
+    | match goal with H : _ = _ |- _ => (cbn [andb negb] in H; discriminate H) end
+    | match goal with s : sv |- _ => destruct s as [[?|] ? ?] end
+    | match goal with p : (_ * _)%type |- _ => destruct p end
+    | match goal with |- context [ptriv P] => destruct (ptriv P) eqn:? end
+    | match goal with |- context [if ?b then _ else _] => destruct b eqn:? end
+    | match goal with |- context [bind ?x _] => destruct x as [?r|?e] end
+    | match goal with |- context [match ?x with Some _ => _ | None => _ end] => destruct x end
+    | match goal with |- context [match ?x with [] => _ | _ :: _ => _ end] => destruct x end ].
+
+  Lemma grow_eq : forall n s, grow_of P progs_gen n s = grow_ref P n s.
+  Proof. intros n [[h|] l sz]; reflexivity. Qed.
+  Lemma grow1_eq : forall s, grow1_of P progs_gen s = grow1_ref P s.
+  Proof. intros s. unfold grow1_of, grow1_ref. simp. rewrite grow_eq. apply bind_ret. Qed.
+  Lemma reserve_eq : forall n s, reserve_of P progs_gen n s = reserve_ref P n s.
+  Proof.
+    intros n s. unfold reserve_of, reserve_ref. simp. destruct (_ <? _); [|reflexivity].
+    rewrite grow_eq. apply bind_ret.
+  Qed.
+  Lemma move_ctor_eq : forall rhs, move_ctor_of P progs_gen rhs = move_ctor_ref P rhs.
+  Proof. intros rhs. unfold move_ctor_of, move_ctor_ref. crunch. Qed.
+  Lemma move_assign_eq : forall this rhs, move_assign_of P progs_gen this rhs = move_assign_ref P this rhs.
+  Proof. intros this rhs. unfold move_assign_of, move_assign_ref. crunch. Qed.
+  Lemma copy_assign_eq : forall this rhs, copy_assign_of P progs_gen this rhs = copy_assign_ref P this rhs.
+  Proof. intros this rhs. unfold copy_assign_of, copy_assign_ref. crunch. Qed.
+  Lemma resize_eq : forall n s, resize_of P progs_gen n s = resize_ref P n s.
+  Proof. intros n s. unfold resize_of, resize_ref. simp. rewrite ?grow_eq. crunch. Qed.
+  Lemma push_back_eq : forall x s, push_back_of P progs_gen (ArgVal x) s = push_back_ref P x s.
+  Proof. intros x s. unfold push_back_of, push_back_ref. simp. rewrite ?grow1_eq. crunch. Qed.
+  Lemma push_back_self_eq : forall i s, push_back_of P progs_gen (ArgSelf i) s = push_back_self_ref P i s.
+  Proof. intros i s. unfold push_back_of, push_back_self_ref, push_back_ref. simp. rewrite ?grow1_eq. crunch. Qed.
+  Lemma emplace_back_eq : forall x s, emplace_back_of P progs_gen (ArgVal x) s = push_back_ref P x s.
+  Proof. intros x s. unfold emplace_back_of, push_back_ref. simp. rewrite ?grow1_eq. crunch. Qed.
+  Lemma emplace_back_self_eq : forall i s, emplace_back_of P progs_gen (ArgSelf i) s = push_back_self_ref P i s.
+  Proof. intros i s. unfold emplace_back_of, push_back_self_ref, push_back_ref. simp. rewrite ?grow1_eq. crunch. Qed.
+  Lemma append_eq : forall vs s, append_of P progs_gen vs s = append_ref P vs s.
+  Proof. intros vs s. unfold append_of, append_ref. simp. rewrite ?reserve_eq. crunch. Qed.
+  Lemma ctor_n_eq : forall n, ctor_n_of P progs_gen n = ctor_n_ref P n.
+  Proof. intros n. unfold ctor_n_of, ctor_n_ref. crunch. Qed.
+  Lemma ctor_fill_eq : forall n x, ctor_fill_of P progs_gen n x = ctor_fill_ref P n x.
+  Proof. intros n x. unfold ctor_fill_of, ctor_fill_ref, build. rewrite repeat_length. crunch. Qed.
+
+  Ltac to_refs :=
+    unfold ctor_n, ctor_fill, move_ctor, copy_assign, move_assign, push_back, push_back_self,
+      emplace_back, emplace_back_self, resize, reserve, append, grow, grow1;
+    rewrite ?ctor_n_eq, ?ctor_fill_eq, ?move_ctor_eq, ?copy_assign_eq, ?move_assign_eq, ?push_back_eq,
+      ?push_back_self_eq, ?emplace_back_eq, ?emplace_back_self_eq, ?resize_eq, ?reserve_eq, ?append_eq.
 
   (* ------------------------------------------------- insert *)
   Ltac lens := rewrite ?app_length, ?map_length, ?firstn_length, ?skipn_length, ?repeat_length; try lia.
@@ -1089,7 +1153,7 @@ Section Proofs.
   Lemma insert_ok : forall s vs pos xs, rep s vs -> pos <= length vs ->
     exists s', insert P pos xs s = Ok (s', pos) /\ rep s' (firstn pos vs ++ xs ++ skipn pos vs).
   Proof.
-    intros s vs pos xs H Hpos. unfold insert, insert_with. rewrite gen_shape.
+    intros s vs pos xs H Hpos. unfold insert, insert_with. rewrite gen_shape. to_refs.
     cbn [ins_guards ins_cond ins_simple ins_over has_guard existsb orb andb].
     pose proof (rep_size _ _ H) as Hs.
     replace (size s <? pos) with false by (symmetry; apply Nat.ltb_ge; lia).
@@ -1179,11 +1243,11 @@ Section Proofs.
     exists st' r, step P o st = Ok (st', r) /\ step_post o st' r tg ot.
   Proof.
     intros o st tg ot Ht Ho Hv. unfold step_post.
-    destruct o; cbn [op_target step spec_step fst snd valid_op] in *.
+    destruct o; cbn [op_target step spec_step fst snd valid_op] in *; to_refs.
     - (* CtorN *) unfold reconstruct. rewrite (destroy_sv_ok _ _ Ht). cbn [bind].
       destruct (ctor_n_ok n) as (s & Hc & Hr). rewrite Hc. cbn [bind].
       eexists _, _. split; [reflexivity|]. rewrite target_mk, other_mk. auto.
-    - (* CtorFill *) unfold reconstruct, ctor_fill. rewrite (destroy_sv_ok _ _ Ht). cbn [bind].
+    - (* CtorFill *) unfold reconstruct, ctor_fill_ref. rewrite (destroy_sv_ok _ _ Ht). cbn [bind].
       destruct (build_ok (repeat x n)) as (s & Hc & Hr). rewrite Hc. cbn [bind].
       eexists _, _. split; [reflexivity|]. rewrite target_mk, other_mk. auto.
     - (* CtorList *) unfold reconstruct, ctor_list. rewrite (destroy_sv_ok _ _ Ht). cbn [bind].
@@ -1211,10 +1275,10 @@ Section Proofs.
     - (* PushBackSelf *) unfold upd.
       destruct (push_back_self_ok _ _ i Ht Hv) as (s & Hc & Hr). rewrite Hc. cbn [bind].
       eexists _, _. split; [reflexivity|]. rewrite target_mk, other_mk. auto.
-    - (* EmplaceBack *) unfold upd, emplace_back.
+    - (* EmplaceBack *) unfold upd.
       destruct (push_back_ok _ _ x Ht) as (s & Hc & Hr). rewrite Hc. cbn [bind].
       eexists _, _. split; [reflexivity|]. rewrite target_mk, other_mk. auto.
-    - (* EmplaceBackSelf *) unfold upd, emplace_back_self.
+    - (* EmplaceBackSelf *) unfold upd.
       destruct (push_back_self_ok _ _ i Ht Hv) as (s & Hc & Hr). rewrite Hc. cbn [bind].
       eexists _, _. split; [reflexivity|]. rewrite target_mk, other_mk. auto.
     - (* Insert *)
